@@ -56,6 +56,10 @@ def generate(rng, tier, n):
     cid = 0
     while len(cases) < n:
         t, st = gen_tree(rng, max_nodes=rng.choice([8, 20, 40]), max_depth=rng.choice([3, 5, 6]))
+        if cid == 0 or (cid > 0 and rng.random() < 0.04):
+            # an infoset wider than a machine word (65 .. 130 actions)
+            from ..solvers import needle_tree
+            t, st = needle_tree(rng, rng.choice([65, 70, 100, 130]), pl=rng.choice([1, 2]))
         multi, singles = infosets_of(t)
         if not (multi[1] or multi[2]):
             continue
